@@ -390,7 +390,7 @@ def enum_date3(ctx):
 # ------------------------------------------------------------------------------------------------
 
 DT_OPS = ["a = b", "a != b", "a - b", "b - a", "a between b and c", "a in [b..c]", "a in (b..c)", "a in < b", "a in <= b", "a in > b", "a in >= b",
-          "a < b", "a <= b", "a > b", "a >= b"]
+          "a < b", "a <= b", "a > b", "a >= b", "a in [b..c)", "a in (b..c]", "c in [b..c)", "b in (b..c]"]
 DT_CMP_OPS = ("a < b", "a <= b", "a > b", "a >= b")
 # null traces of the catch-all arms of build_lt/le/gt/ge on the pinned tree (a null from anywhere else, e.g. from
 # eval_in_unary_less on operands outside chrono's range, is not this defect)
@@ -445,11 +445,13 @@ def judge_dts(ctx, case, resp):
         return f
     rng = tb <= tc
     exp = [ta == tb, ta != tb, ("dtd", ta - tb), ("dtd", tb - ta), tb <= ta <= tc, (tb <= ta <= tc) if rng else None,
-           (tb < ta < tc) if rng else None, ta < tb, ta <= tb, ta > tb, ta >= tb, ta < tb, ta <= tb, ta > tb, ta >= tb]
+           (tb < ta < tc) if rng else None, ta < tb, ta <= tb, ta > tb, ta >= tb, ta < tb, ta <= tb, ta > tb, ta >= tb,
+           (tb <= ta < tc) if rng else None, (tb < ta <= tc) if rng else None, False if rng else None, False if rng else None]
     sa, sb, sc = (sut_instant(case[k], o) for k, o in zip("abc", offs))
     lossy = (sa, sb, sc) != (ta, tb, tc)
     model = [sa == sb, sa != sb, ("dtd", sa - sb), ("dtd", sb - sa), sb <= sa <= sc, sb <= sa <= sc, sb < sa < sc,
-             sa < sb, sa <= sb, sa > sb, sa >= sb, sa < sb, sa <= sb, sa > sb, sa >= sb]
+             sa < sb, sa <= sb, sa > sb, sa >= sb, sa < sb, sa <= sb, sa > sb, sa >= sb,
+             sb <= sa < sc, sb < sa <= sc, False, False]
     fails = []
     for op, e, g in zip(DT_OPS, exp, items):
         if e is None:
